@@ -179,6 +179,45 @@ def c07_validation(i: int) -> bool:
     return ok
 
 
+MF_DECLS = [
+    "namespace one { class A { A(); }; }",
+    "namespace two { class B { B(); void run() const; }; double fb(int x); }",
+    "class G { G(); };",
+    "namespace one { class C { C(); }; enum E { X, Y }; }",
+    "double gf(double x);",
+    "namespace three { namespace deep { class D { D(); }; } }",
+]
+MF_ARTEFACTS = ["+one/A.m", "+two/B.m", "+two/fb.m", "G.m", "+one/C.m", "+one/E.m", "gf.m", "+three/+deep/D.m"]
+
+
+def c07_multifile(cut1: int, cut2: int, rot: int) -> bool:
+    """
+    MATLAB build from 1-3 interface files: every top-level declaration of EVERY file (a second namespace block, a global
+    class / function after the first block, ...) is either reflected in the toolbox or the run fails — none is parsed,
+    accepted and dropped.
+    pre: 0 <= cut1 <= len(MF_DECLS) and cut1 <= cut2 <= len(MF_DECLS) and 0 <= rot < len(MF_DECLS)
+    post: _
+    """
+    n = len(MF_DECLS)
+    cut1, cut2, rot = pick(cut1, 0, n + 1), pick(cut2, 0, n + 1), pick(rot, 0, n)
+    with concrete():
+        from harness import c16
+        decls = MF_DECLS[rot:] + MF_DECLS[:rot]
+        parts = [p for p in (decls[:cut1], decls[cut1:cut2], decls[cut2:]) if p]
+        texts = ["\n".join(p) + "\n" for p in parts]
+        ok = True
+        try:
+            files = c16.matlab_files_for(texts)
+        except Exception as ex:
+            files = None                                   # a loud failure is allowed by the property (C16 judges whether it should fail)
+        if files is not None:
+            missing = [a for a in MF_ARTEFACTS if a not in files]
+            if missing:
+                ok = _fail(files=texts, problems=["accepted, but nothing was generated for %r" % missing])
+    reached({"cuts": [cut1, cut2], "rot": rot} if (not ok or (cut1 == 2 and cut2 == 4 and rot == 0)) else None)
+    return ok
+
+
 def conds(tier):
     q = tier == "quick"
     t = (lambda x, y: x) if q else (lambda x, y: y)
@@ -186,5 +225,7 @@ def conds(tier):
     return [
         xh.Cond(M, "c07_corruption", t(420, 2400), kind="shape-bounded", path_timeout=60, examples=["kind=3, k=17, s=0", "kind=0, k=5, s=0", "kind=4, k=30, s=2"],
                 bounds="5 corruption kinds x %s token positions%s, 6 entry points each" % (("all %d" % NB) if not q else ("every third of %d" % NB), " x 5 stray tokens per position" if not q else " (stray token derived)")),
+        xh.Cond(M, "c07_multifile", t(200, 600), kind="shape-bounded", examples=["cut1=2, cut2=4, rot=0", "cut1=1, cut2=1, rot=3", "cut1=0, cut2=3, rot=5"],
+                bounds="6 top-level declarations in 6 rotations, split into 1-3 files at every pair of cut points"),
         xh.Cond(M, "c07_validation", t(120, 300), kind="shape-bounded", examples=["i=0", "i=4"], bounds="%d rule violations x 6 entry points" % NI),
     ]
